@@ -172,4 +172,71 @@ theorem continuity_after_success (F : File) (B : List BHdr) (Fl : List Nat)
       exact hfacts.2.1 hgt
     · exact verifyAt_appended F B Fl B.length (endHeight F) hs rfl heq.symm hN (by omega) (by unfold endHeight; omega)
 
+/-! ### block store ahead of the filter store -/
+
+theorem nodup_ids_idx {l : List BHdr} (h : (l.map (·.id)).Nodup) {i j : Nat} {x y : BHdr}
+    (hi : l[i]? = some x) (hj : l[j]? = some y) (hij : i < j) : x.id ≠ y.id := by
+  obtain ⟨hi', rfl⟩ := List.getElem?_eq_some_iff.mp hi
+  obtain ⟨hj', rfl⟩ := List.getElem?_eq_some_iff.mp hj
+  rw [List.Nodup, List.pairwise_iff_getElem] at h
+  have := h i j (by simpa using hi') (by simpa using hj') hij
+  simpa using this
+
+/-- **The block-ahead rejection.**  Block store ahead of the filter store (ids
+pairwise distinct), file from height 0 reaching above the filter tip: one of
+`validateChainContinuity` and the block validator must fail.  The connection
+check compares the file's header at `filterTip+1` with the block store's TIP
+(`validateHeaderConnection(overlapEnd+1, blockTipHeight)`), while the validator
+and the overlap check tie the same header to the block at `filterTip`. -/
+theorem block_ahead_checks_fail (F : File) (bs : Nat) (B : List BHdr) (Fl : List Nat)
+    (hs : F.bstart = 0) (hF : Fl.length ≥ 1) (hahead : Fl.length < B.length)
+    (hnd : (B.map (·.id)).Nodup) (hreach : endHeight F > Fl.length - 1)
+    (hc : continuity F (mk B Fl) = none) (hv : validateBlocks F.blocks bs = true) : False := by
+  have hpairs := validateBlocks_pairsOk _ _ hv
+  have hfacts := (continuity_overlap_iff F (mk B Fl) (B.length - 1) (Fl.length - 1)
+    (bChainTip_mk B Fl (by omega)) (fChainTip_mk B Fl hF) (by omega)).mp hc
+  unfold overlapFacts at hfacts
+  have hoe : min (min (B.length - 1) (Fl.length - 1)) (endHeight F) = Fl.length - 1 := by omega
+  rw [hoe] at hfacts
+  obtain ⟨h0, h1, h2⟩ := hfacts
+  -- the header at the filter tip agrees with the block store
+  have hvb : verifyBlockAt F (mk B Fl) (Fl.length - 1) = true := by
+    by_cases hz : Fl.length - 1 > F.bstart
+    · have := h1 hz
+      simp only [verifyAt, Bool.and_eq_true] at this
+      exact this.1
+    · have hz' : Fl.length - 1 = F.bstart := by omega
+      simp only [verifyAt, Bool.and_eq_true] at h0
+      rw [hz']; exact h0.1
+  have hconn := h2 hreach
+  unfold verifyBlockAt at hvb
+  unfold connects at hconn
+  have hBm : (mk B Fl).blocks = B := rfl
+  rw [hBm, hs, Nat.sub_zero] at hvb hconn
+  cases hx : F.blocks[Fl.length - 1]? with
+  | none => rw [hx] at hvb; simp at hvb
+  | some x =>
+    cases hy : B[Fl.length - 1]? with
+    | none => rw [hx, hy] at hvb; simp at hvb
+    | some y =>
+      cases hp : B[B.length - 1]? with
+      | none => rw [hp] at hconn; simp at hconn
+      | some p =>
+        cases hcc : F.blocks[Fl.length - 1 + 1]? with
+        | none => rw [hp, hcc] at hconn; simp at hconn
+        | some c =>
+          rw [hx, hy] at hvb
+          rw [hp, hcc] at hconn
+          simp only [beq_iff_eq] at hvb hconn
+          have hlink := pairsOk_link F.blocks (Fl.length - 1) x c hpairs hx hcc
+          exact nodup_ids_idx hnd hy hp (by omega) (by rw [← hvb, ← hlink, hconn])
+
+theorem failContent_unchanged (F : File) (B : List BHdr) (Fl : List Nat) (hB : B.length ≥ 1) (hF : Fl.length ≥ 1)
+    (hle : Fl.length ≤ B.length) : failContentOk (obsOf (mk B Fl)) F (obsOf (mk B Fl)) = true := by
+  have e3 : (obsOf (mk B Fl)).blocks = B := rfl
+  have e4 : (obsOf (mk B Fl)).filters = Fl := rfl
+  have hu := usable_mk B Fl hB hF
+  simp only [failContentOk, hu, e3, e4, Nat.sub_self, List.take_zero, List.append_nil, beq_self_eq_true, hle,
+    Nat.le_refl, decide_true, Bool.or_true, Bool.true_or, Bool.and_self]
+
 end Neutrino.Import
